@@ -33,6 +33,8 @@ mod testonly;
 #[cfg(test)]
 mod tests;
 mod validator_addrs;
+#[cfg(feature = "verif")]
+pub mod verif;
 
 /// Info about a gossip connection.
 #[derive(Debug)]
